@@ -189,8 +189,10 @@ def check_case(case, ctx):
         for mode in ("into_empty", "into_first"):
             # members are built alternately through the absolute and the relative representation
             seqs = [hist.live_case(live_spec, core.Res(), ctx["p"], *ctx["ch"], hp=ctx["p"] - 20)[0] if mems[i].get("live") else
-                    (lib.seq_abs if (k + (mode == "into_first")) % 2 == 0 else lib.seq_rel)(
-                        mems[i]["notes"], mems[i]["events"], mems[i]["dur"]) for k, i in enumerate(perm)]
+                    (lib.seq_rel(mems[i]["notes"], mems[i]["events"], mems[i]["dur"]) if (k + (mode == "into_first")) % 2 else
+                     lib.seq_abs(mems[i]["notes"], mems[i]["events"], mems[i]["dur"],
+                                 order=("sane", "reverse", "ons_first")[(i + len(perm) + (mode == "into_first")) % 3]))
+                    for k, i in enumerate(perm)]
             if mode == "into_empty":
                 recv, rest = Sequence(), seqs
             else:
